@@ -30,7 +30,14 @@ var immutInPlace = map[string]map[string]string{
 	"core/rlwe.(Evaluator).DecomposeSingleNTT":                {"c2QiQ": "doc: 'returns the result on c2QiQ and c2QiP' (two outputs)"},
 	"core/rlwe.(RingPackingEvaluator).Split":                  {"ctEvenNHalf": "doc: splits ctN into ctEvenNHalf and ctOddNHalf (two outputs)"},
 	"schemes/bgv.(Evaluator).MatchScalesAndLevel":             {"ct0": "doc: 'updates the both input ciphertexts'"},
-	"core/rlwe.(Evaluator).ModDown":                           {"ctQP": "ctQP is the scratch QP accumulator of the gadget product: brought out of the NTT domain in place before the division by P"},
+}
+
+// immutInPlaceOnly: operands that stay inputs but may be written by the named operations only (any other write site
+// rooted at them is reported). Key: function -> parameter -> allowed operation names; one line of reason each.
+var immutInPlaceOnly = map[string]map[string][]string{
+	// ctQP is the scratch QP accumulator of the gadget product: brought out of the NTT domain in place before the
+	// division by P — but never the target of a copy (1fa5ef7 copied ct into it instead of the reverse)
+	"core/rlwe.(Evaluator).ModDown": {"ctQP": {"INTTLazy", "INTT"}},
 }
 
 var immutRecv = regexp.MustCompile(`Evaluator|Encoder|Encryptor|Decryptor|KeyGenerator|Protocol|Thresholdizer|Combiner|DomainSwitcher|Bootstrapper`)
@@ -278,6 +285,17 @@ func scanImmut(c *core.Ctx) []ob {
 				}
 				if identityGuarded(info, pm, w.target, r.obj, outObjs, aliases) {
 					continue
+				}
+				if only := immutInPlaceOnly[fkey][r.obj.Name()]; only != nil {
+					allowed := false
+					for _, op := range only {
+						if strings.HasSuffix(w.how, " "+op) || strings.HasSuffix(w.how, "."+op) || strings.Contains(w.how, " "+op+" ") || strings.HasSuffix(w.how, op) {
+							allowed = true
+						}
+					}
+					if allowed {
+						continue
+					}
 				}
 				hits[r.obj] = append(hits[r.obj], hit{c.Rel(w.pos), fmt.Sprintf("%s (%s)", exprString(w.target), w.how)})
 			}
